@@ -257,7 +257,7 @@ PROP_GEN = {
             "main_deps": ["LoopRangeProofs.vo", "GenBase.vo"], "main_cone": ["LoopRangeProofs.v", "GenBase.v"]},
     "C06": {"modules": ["StrSearchGen"], "files": ["GenLinkStrSearch.v", "GenPropsStrSearch.v", "C06g.v"],
             "main_deps": ["StrSearchProofs.vo", "GenBase.vo"], "main_cone": ["StrSearchProofs.v", "GenBase.v"]},
-    "C08": {"modules": ["LiteralGen"], "files": ["GenLinkLiteral.v", "GenPropsLiteral.v", "C08g.v"],
+    "C08": {"modules": ["LiteralGen", "StrPrintGen"], "files": ["GenLinkLiteral.v", "GenPropsLiteral.v", "GenLinkStrPrint.v", "GenPropsStrPrint.v", "C08g.v"],
             "main_deps": ["LiteralProofs.vo", "GenBase.vo"], "main_cone": ["LiteralProofs.v", "GenBase.v"]},
     "C09": {"modules": ["StrConvGen"], "files": ["GenLinkStrConv.v", "GenPropsStrConv.v", "C09g.v"],
             "main_deps": ["StrConvProofs.vo", "Literal.vo", "GenBase.vo"], "main_cone": ["StrConvProofs.v", "Literal.v", "GenBase.v"]},
